@@ -103,15 +103,18 @@ func (cp *CertificatePoliciesData) MarshalJSON() ([]byte, error) {
 			cpsJSON.CPSUri = append(cpsJSON.CPSUri, uri)
 		}
 
-		for idx2, explicit_text := range cp.ExplicitTexts[idx] {
+		// UserNotices keeps the explicit text and the notice reference of one
+		// user notice together; ExplicitTexts and NoticeRefOrganization are
+		// flat lists that have different lengths as soon as one notice
+		// carries only one of the two.
+		for _, notice := range cp.UserNotices[idx] {
+			if notice.ExplicitText == nil {
+				continue
+			}
 			uNoticeData := UserNoticeData{}
-			uNoticeData.ExplicitText = explicit_text
-			noticeRef := NoticeReference{}
-			if len(cp.NoticeRefOrganization[idx]) > 0 {
-				organization := cp.NoticeRefOrganization[idx][idx2]
-				noticeRef.Organization = organization
-				noticeRef.NoticeNumbers = cp.NoticeRefNumbers[idx][idx2]
-				uNoticeData.NoticeReference = append(uNoticeData.NoticeReference, noticeRef)
+			uNoticeData.ExplicitText = *notice.ExplicitText
+			if notice.NoticeReference != nil {
+				uNoticeData.NoticeReference = append(uNoticeData.NoticeReference, *notice.NoticeReference)
 			}
 			cpsJSON.UserNotice = append(cpsJSON.UserNotice, uNoticeData)
 		}
